@@ -334,8 +334,8 @@ def sec_units(rec, patches=None):
                     return Tasks()
 
                 ld.construct_mapping_tasks = cmt
-                ld._post_align = lambda results, shape: ("POST", shape)
-                ld._post_align_multi_templates = lambda results, shape, rem, name: ("POSTM", shape)
+                ld._post_align = lambda *a, **k: ("POST",)
+                ld._post_align_multi_templates = lambda *a, **k: ("POSTM",)
                 ld.average = lambda *a, **k: "AVG"
                 lds.append(ld)
             ld = lds[0]
